@@ -75,6 +75,42 @@ def flatten_requests(v):
     return [], False
 
 
+def dup_ids(reqs):
+    """(conn, repr(id)) pairs that occur in more than one request object of the step: responses cannot be attributed"""
+    import collections as _c
+    cnt = _c.Counter()
+    for c, top in reqs:
+        if top is None:
+            continue
+        for r in flatten_requests(top)[0]:
+            rid = cget(r, b"id")
+            if is_id(rid):
+                cnt[(c, repr(rid))] += 1
+    return set(k for k, n in cnt.items() if n > 1)
+
+
+def pick_routed(cands, v, sends):
+    """index of the set/call request (conn, request) that the routed message v belongs to, or None"""
+    meth, rid = cget(v, b"method"), cget(v, b"id")
+    scored = []
+    for i, (c, r) in enumerate(cands):
+        params = cget(r, b"params")
+        if cget(params, b"path") != meth:
+            continue
+        isset = cget(r, b"method") == b"set"
+        want = ("obj", [(b"value", cget(params, b"value"))]) if isset else (cget(params, b"args") if cget(params, b"args") is not None else ("obj", []))
+        if cget(v, b"params") != want:
+            continue
+        oid = cget(r, b"id")
+        if oid is not None and not is_id(oid):
+            continue      # an id of another JSON type is refused, never routed
+        prefix = (oid + b"_") if isinstance(oid, bytes) else (b"(null)_" if is_id(oid) else b"")
+        refused = is_id(oid) and any(d2 == c and is_response(v2) and has_member(v2, b"error") and cget(v2, b"id") == oid
+                                     for d2, ok2, v2 in sends if not (isinstance(v2, tuple) and v2 and v2[0] == "unparsable"))
+        scored.append((0 if (rid.startswith(prefix) and not refused) else (1 if not refused else 2), i))
+    return sorted(scored)[0][1] if scored else None
+
+
 def step_sends(res, si):
     out = []
     for s in res["itr"].sends[si]:
@@ -245,6 +281,7 @@ def mon_c04(sc, res):
             addr2conn[addr] = c
         sends = step_sends(res, si)
         closed = set(itr.closed[si])
+        dups = dup_ids(step_requests(st, itr.replies, si))
         for c, top in step_requests(st, itr.replies, si):
             if top is None or c in dead:
                 continue
@@ -257,7 +294,7 @@ def mon_c04(sc, res):
                 if not isinstance(method, bytes) or method not in (b"add", b"remove", b"change"):
                     continue
                 path = cget(params, b"path") if is_obj(params) else None
-                mine = [v for v in resp if cget(v, b"id") == rid] if is_id(rid) else []
+                mine = [v for v in resp if cget(v, b"id") == rid] if (is_id(rid) and (c, repr(rid)) not in dups) else []
                 if len(mine) != 1 or (isinstance(path, bytes) and path in unknown) or uncertain:
                     # outcome not observable (no id / duplicated id / connection dropped): resynchronise at the next snapshot
                     if isinstance(path, bytes):
@@ -403,6 +440,7 @@ def mon_c01(sc, res):
         pending_fetch = {}
         pending_unfetch = {}
         tainted = set()      # fetch ids touched in this step by requests whose outcome cannot be observed
+        dups = dup_ids(step_requests(st, itr.replies, si))
         for c, top in step_requests(st, itr.replies, si):
             if top is None or c in dead:
                 continue
@@ -411,12 +449,14 @@ def mon_c01(sc, res):
                 m = cget(r, b"method")
                 rid = cget(r, b"id")
                 params = cget(r, b"params")
-                if m == b"fetch" and is_id(rid) and is_obj(params) and is_id(cget(params, b"id")):
+                if m in (b"fetch", b"unfetch") and is_id(rid) and (c, repr(rid)) in dups and is_obj(params) and is_id(cget(params, b"id")):
+                    tainted.add((c, fid_key(cget(params, b"id"))))
+                elif m == b"fetch" and is_id(rid) and is_obj(params) and is_id(cget(params, b"id")):
                     pending_fetch.setdefault((c, repr(rid)), []).append(params)
                 elif m == b"fetch" and is_obj(params) and is_id(cget(params, b"id")):
                     # no usable request id: installation cannot be observed; events for this fetch id are not judged
                     tainted.add((c, fid_key(cget(params, b"id"))))
-                if m == b"unfetch" and is_id(rid) and is_obj(params) and is_id(cget(params, b"id")):
+                if m == b"unfetch" and is_id(rid) and (c, repr(rid)) not in dups and is_obj(params) and is_id(cget(params, b"id")):
                     pending_unfetch.setdefault((c, repr(rid)), []).append(params)
                 elif m == b"unfetch" and is_obj(params) and is_id(cget(params, b"id")):
                     tainted.add((c, fid_key(cget(params, b"id"))))
@@ -565,25 +605,7 @@ def mon_c03(sc, res):
                 if rid in ever:
                     fails.append("step %d: routed id %s was used before" % (si, show(rid)))
                 ever.add(rid)
-                match = None
-                scored = []
-                for i, (c, r) in enumerate(cands):
-                    params = cget(r, b"params")
-                    if cget(params, b"path") != meth:
-                        continue
-                    isset = cget(r, b"method") == b"set"
-                    want = ("obj", [(b"value", cget(params, b"value"))]) if isset else (cget(params, b"args") if cget(params, b"args") is not None else ("obj", []))
-                    if cget(v, b"params") != want:
-                        continue
-                    oid = cget(r, b"id")
-                    # the routed id starts with the caller's id string ("(null)" for a number); a request that was answered with an
-                    # error in this step was not routed
-                    prefix = (oid + b"_") if isinstance(oid, bytes) else (b"(null)_" if is_id(oid) else b"")
-                    refused = is_id(oid) and any(d2 == c and is_response(v2) and has_member(v2, b"error") and cget(v2, b"id") == oid
-                                                 for d2, ok2, v2 in sends if not (isinstance(v2, tuple) and v2 and v2[0] == "unparsable"))
-                    scored.append((0 if (rid.startswith(prefix) and not refused) else (1 if not refused else 2), i))
-                if scored:
-                    match = sorted(scored)[0][1]
+                match = pick_routed(cands, v, sends)
                 if match is None:
                     fails.append("step %d: routed message %s to c%d corresponds to no set/call of this step with equal path and payload" % (si, show(v)[:160], d))
                     continue
@@ -804,6 +826,7 @@ def mon_c08(sc, res):
         sends = step_sends(res, si)
         reqs = [(c, v) for c, v in step_requests(st, itr.replies, si) if c not in dead and v is not None]
         # learn from successful authenticate / add / remove in this step (ids must identify the response)
+        dups = dup_ids(reqs)
         for c, top in reqs:
             rs, _ = flatten_requests(top)
             resp = [v for d, ok, v in sends if d == c and is_response(v)]
@@ -811,7 +834,7 @@ def mon_c08(sc, res):
                 m = cget(r, b"method")
                 rid = cget(r, b"id")
                 params = cget(r, b"params")
-                mine = [v for v in resp if cget(v, b"id") == rid] if is_id(rid) else []
+                mine = [v for v in resp if cget(v, b"id") == rid] if (is_id(rid) and (c, repr(rid)) not in dups) else []
                 okresp = len(mine) == 1 and has_member(mine[0], b"result")
                 if m == b"authenticate" and okresp and is_obj(params) and isinstance(cget(params, b"user"), bytes):
                     who[c] = users.get(cget(params, b"user").lower())
@@ -1057,6 +1080,7 @@ def mon_c14(sc, res):
         arms = [t for t in itr.timers[si] if t[0] == "arm"]
         routed = [(d, v) for d, ok, v in sends if is_obj(v) and cget(v, b"method") is not None and isinstance(cget(v, b"id"), bytes)]
         cands = []
+        dups = dup_ids(reqs)
         for c, top in reqs:
             rs, _ = flatten_requests(top)
             resp = [v for d, ok, v in sends if d == c and is_response(v)]
@@ -1065,7 +1089,7 @@ def mon_c14(sc, res):
                 params = cget(r, b"params")
                 rid = cget(r, b"id")
                 if m == b"add" and is_obj(params) and isinstance(cget(params, b"path"), bytes):
-                    mine = [v for v in resp if cget(v, b"id") == rid] if is_id(rid) else []
+                    mine = [v for v in resp if cget(v, b"id") == rid] if (is_id(rid) and (c, repr(rid)) not in dups) else []
                     t = cget(params, b"timeout")
                     if len(mine) == 1 and has_member(mine[0], b"result"):
                         elem_timeout[cget(params, b"path")] = int(t * 1e9) if isinstance(t, float) and not isinstance(t, bool) else default_ns
@@ -1085,14 +1109,10 @@ def mon_c14(sc, res):
             path = cget(v, b"method")
             want = None
             src = None
-            for j, (c, r) in enumerate(cands):
+            j = pick_routed(cands, v, sends)
+            if j is not None:
+                c, r = cands.pop(j)
                 params = cget(r, b"params")
-                if cget(params, b"path") != path:
-                    continue
-                isset = cget(r, b"method") == b"set"
-                pay = ("obj", [(b"value", cget(params, b"value"))]) if isset else (cget(params, b"args") if cget(params, b"args") is not None else ("obj", []))
-                if cget(v, b"params") != pay:
-                    continue
                 t = cget(params, b"timeout")
                 if t is not None:
                     if isinstance(t, bool) or not isinstance(t, float) or t < 0.001:
@@ -1102,8 +1122,6 @@ def mon_c14(sc, res):
                 else:
                     want, src = elem_timeout.get(path, None), "element/default"
                 timer_of[arms[i][1]] = (c, cget(r, b"id"))
-                cands.pop(j)
-                break
             if want is not None and abs(arms[i][2] - want) > 1:
                 fails.append("step %d: request on %s armed %d ns, expected %d ns (%s)" % (si, show(path), arms[i][2], want, src))
         # timeout answers only when the timer expired in this step
